@@ -1,9 +1,16 @@
-"""Replay / bounded stand-in for C15: the shared server-protocol scenario bank (replay/server_bank.py)."""
+"""Replay / bounded stand-in for C15: server scenario bank + in-process PyOpenSSL back end."""
 import sys
 
 sys.path.insert(0, "/verif")
 from replay.common import load, done  # noqa: E402
-from replay import server_bank  # noqa: E402
+from replay import tls_bank, server_bank  # noqa: E402
 
 p = load()
-done(**server_bank.bank(focus="C15"))
+ob = p.get("obligation", "")
+first, second = (tls_bank, server_bank) if "tls_protocol" in ob else (server_bank, tls_bank)
+r = first.bank("C15")
+if not r.get("confirmed"):
+    r2 = second.bank("C15")
+    if r2.get("confirmed"):
+        r = r2
+done(**r)
